@@ -9,13 +9,15 @@
 //!     After every addition: acyclic, labels/edges monotone, node growth <= |q|, consensus non-empty
 //!     and spelled by a path.
 //! K1: identity clause — the reference added to its own graph k times.
+//! K1 (appended): narrow bands (the out-of-band paths of the banded traceback), `Poa::new` as an
+//!     equivalent route to the `Aligner` that owns the graph, `Poa::edges`.
 
 use super::Prop;
 use crate::bfs;
 use crate::ctx::{guard, show, unshow, CaseCtx, Ctx, Tier};
 use crate::gen;
 use bio::alignment::pairwise::{MatchFunc, Scoring};
-use bio::alignment::poa::{Aligner, Alignment, AlignmentOperation, POAGraph};
+use bio::alignment::poa::{Aligner, Alignment, AlignmentOperation, POAGraph, Poa, MIN_SCORE};
 use serde::{Deserialize, Serialize};
 use serde_json::{json, Value};
 
@@ -753,6 +755,358 @@ fn history_unit(family: &'static str, si: usize, shard: usize, nshards: usize, t
     );
 }
 
+// ---------------------------------------------------------------- narrow bands (K1, appended)
+//
+// `global_banded` keeps, per graph node, only the columns within `bandwidth` of the column that
+// held the best score so far.  With bandwidth >= max(|r|,|q|) (the clause above) every column is
+// inside the band; the out-of-band answers of `Traceback::get` and the padded row start are only
+// executed with narrower bands.  "if too small, alignment may be suboptimal" is all the rustdoc
+// says about those, so what is demanded is: no panic; the score never exceeds the optimum; when
+// the call reports a score that is not the "minus infinity" sentinel range, the operations form a
+// valid alignment whose recomputed score is the reported one.
+
+fn check_narrow(r: &[u8], q: &[u8], si: usize, cc: &mut CaseCtx) {
+    let t = table(si);
+    let g = gap(si);
+    let (want, _) = nw(r, q, &t, g);
+    let big = r.len().max(q.len());
+    cc.set_nontrivial(big >= 2);
+    let mut al = match guard(|| Aligner::new(scoring(si, false), r)) {
+        Ok(a) => a,
+        Err(msg) => {
+            cc.violation("C16/new/linear/panic", msg);
+            return;
+        }
+    };
+    for bw in 0..big {
+        match guard(|| al.global_banded(q, bw).alignment()) {
+            Err(msg) => {
+                cc.violation("C16/global_banded/narrow/panic", format!("bandwidth {}: {}", bw, msg));
+                al = match guard(|| Aligner::new(scoring(si, false), r)) {
+                    Ok(a) => a,
+                    Err(_) => return,
+                };
+            }
+            Ok(a) => {
+                cc.outcome(&a);
+                let sc = a.score as i64;
+                if sc > want {
+                    cc.violation("C16/global_banded/narrow/score-above-optimum", format!("bandwidth {}: banded score {} Needleman-Wunsch {}", bw, sc, want));
+                }
+                if sc == want {
+                    cc.count("narrow_band_optimal", 1);
+                } else if sc > (MIN_SCORE / 2) as i64 {
+                    cc.count("narrow_band_suboptimal", 1);
+                } else {
+                    cc.count("narrow_band_no_alignment", 1);
+                }
+                if sc > (MIN_SCORE / 2) as i64 {
+                    match ops_of(&a) {
+                        Err(e) => cc.violation("C16/global_banded/narrow/ops-unreadable", e),
+                        Ok(ops) => match walk_linear(r, q, &ops, &t, g) {
+                            Err(e) => cc.violation("C16/global_banded/narrow/invalid-path", format!("bandwidth {}: {} ; score {} ops {:?}", bw, e, sc, ops)),
+                            Ok(s) => {
+                                if s != sc {
+                                    cc.violation("C16/global_banded/narrow/path-score-differs", format!("bandwidth {}: reported {} but the operations score {} ; ops {:?}", bw, sc, s, ops));
+                                }
+                            }
+                        },
+                    }
+                }
+            }
+        }
+    }
+}
+
+const NARROW_SHARDS: usize = 4;
+
+fn narrow_strings(tier: Tier) -> Vec<Vec<u8>> {
+    gen::strings(b"ab", 1, tier.pick(6, 7))
+}
+
+fn narrow_unit(tier: Tier, shard: usize, ctx: &mut Ctx) {
+    let strs = narrow_strings(tier);
+    for (i, r) in strs.iter().enumerate() {
+        if i % NARROW_SHARDS != shard {
+            continue;
+        }
+        for q in &strs {
+            for si in 0..SCORINGS.len() {
+                ctx.case(|| json!({"kind": "narrow-band", "r": show(r), "q": show(q), "scoring": si}), |cc| check_narrow(r, q, si, cc));
+            }
+        }
+        if ctx.res.capped {
+            break;
+        }
+    }
+}
+
+// ---------------------------------------------------------------- Poa::new / Poa::edges (K1, appended)
+//
+// `Poa::new(scoring, graph)` builds the alignment engine from an existing graph; it must behave
+// like the `Aligner` that owns the same graph: same `custom` / `global` / `global_banded` result
+// on the next query, same graph after adding that query.  `Poa::edges(alignment)` ("return
+// sequence of traversed edges; only supports alignments for sequences that have already been
+// added, so all operations must be Match") is asserted where that contract is unambiguous: the
+// alignment consists of Match operations only, every matched node carries the symbol aligned to
+// it, and the path starts at node 0 (Match(None), the first operation, does not name its node and
+// the function takes node 0 for it).  Paths that start at another source node are only observed
+// and counted (see the report of this work package).
+
+/// `r`, then every sequence of `adds` added through global(..).add_to_graph()
+fn build_history(r: &[u8], adds: &[Vec<u8>], si: usize, clips: bool) -> Result<Aligner<Table>, String> {
+    guard(|| {
+        let mut al = Aligner::new(scoring(si, clips), r);
+        for q in adds {
+            al.global(q).add_to_graph();
+        }
+        al
+    })
+}
+
+fn check_poa_new(r: &[u8], adds: &[Vec<u8>], si: usize, clips: bool, q: &[u8], cc: &mut CaseCtx) {
+    let mut al = match build_history(r, adds, si, clips) {
+        Ok(a) => a,
+        Err(msg) => {
+            cc.violation("C16/poa-new/setup/panic", msg);
+            return;
+        }
+    };
+    let base = snap(al.graph());
+    cc.set_nontrivial(branchiness(&base) > 0);
+    let graph0: POAGraph = al.graph().clone();
+    let fresh = |with_clips: bool| guard(|| Poa::new(scoring(si, with_clips), graph0.clone()));
+    let mut poa = match fresh(clips) {
+        Ok(p) => p,
+        Err(msg) => {
+            cc.violation("C16/poa-new/panic", msg);
+            return;
+        }
+    };
+    if snap(&poa.graph) != base {
+        cc.violation("C16/poa-new/graph-differs", format!("given {} ; holds {}", show_snap(&base), show_snap(&snap(&poa.graph))));
+        return;
+    }
+    let nodes = base.labels.len();
+    // custom (sees the configured clip penalties)
+    let want_custom = guard(|| al.custom(q).alignment());
+    let got_custom = guard(|| poa.custom(q).alignment());
+    compare_alignments("custom", &want_custom, &got_custom, &base, cc);
+    // global == custom with all clip penalties at minus infinity, which is what `scoring(si, false)` configures
+    if clips {
+        match fresh(false) {
+            Err(msg) => cc.violation("C16/poa-new/panic", msg),
+            Ok(p) => {
+                let want = guard(|| al.global(q).alignment());
+                let got = guard(|| p.custom(q).alignment());
+                compare_alignments("global", &want, &got, &base, cc);
+            }
+        }
+    }
+    for bw in [1usize, q.len() + nodes] {
+        let want = guard(|| al.global_banded(q, bw).alignment());
+        let got = guard(|| poa.global_banded(q, bw).alignment());
+        compare_alignments("global_banded", &want, &got, &base, cc);
+    }
+    // adding the custom alignment through either object gives the same graph
+    if let (Ok(_), Ok(aln)) = (&want_custom, &got_custom) {
+        let a = guard(|| {
+            al.custom(q).add_to_graph();
+        });
+        let b = guard(|| poa.add_alignment(aln, q));
+        match (a, b) {
+            (Ok(()), Ok(())) => {
+                let (sa, sb) = (snap(al.graph()), snap(&poa.graph));
+                cc.outcome(&sa);
+                if sa != sb {
+                    cc.violation("C16/poa-new/add_alignment/graph-differs", format!("Aligner: {} ; Poa::new: {}", show_snap(&sa), show_snap(&sb)));
+                }
+            }
+            (Ok(()), Err(msg)) => cc.violation("C16/poa-new/add_alignment/panic", msg),
+            // a panic of the Aligner itself is the business of the history clause
+            _ => {}
+        }
+    }
+}
+
+fn compare_alignments(what: &str, want: &Result<Alignment, String>, got: &Result<Alignment, String>, g: &Snap, cc: &mut CaseCtx) {
+    match (want, got) {
+        (Ok(w), Ok(x)) => {
+            cc.outcome(x);
+            if w.score != x.score {
+                cc.violation(format!("C16/poa-new/{}/score-differs", what), format!("Aligner {} Poa::new {} on {}", w.score, x.score, show_snap(g)));
+            } else if w != x {
+                cc.violation(format!("C16/poa-new/{}/alignment-differs", what), format!("Aligner {:?} Poa::new {:?} on {}", w, x, show_snap(g)));
+            }
+        }
+        (Ok(_), Err(msg)) => cc.violation(format!("C16/poa-new/{}/panic", what), format!("{} on {}", msg, show_snap(g))),
+        // the Aligner route panicking is judged by the history clause, not here
+        (Err(_), _) => {}
+    }
+}
+
+/// flip to true to turn the observation about paths that do not start at node 0 into a violation
+const EDGES_ASSERT_ANY_START: bool = false;
+
+fn check_edges(r: &[u8], adds: &[Vec<u8>], si: usize, cc: &mut CaseCtx) {
+    let al = match build_history(r, adds, si, false) {
+        Ok(a) => a,
+        Err(msg) => {
+            cc.violation("C16/poa-new/setup/panic", msg);
+            return;
+        }
+    };
+    let base = snap(al.graph());
+    let poa = match guard(|| Poa::new(scoring(si, false), al.graph().clone())) {
+        Ok(p) => p,
+        Err(msg) => {
+            cc.violation("C16/poa-new/panic", msg);
+            return;
+        }
+    };
+    let mut seqs: Vec<&[u8]> = vec![r];
+    for q in adds {
+        if !seqs.contains(&q.as_slice()) {
+            seqs.push(q);
+        }
+    }
+    for s in seqs {
+        let aln = match guard(|| poa.custom(s).alignment()) {
+            Ok(a) => a,
+            Err(msg) => {
+                cc.violation("C16/poa-new/custom/panic", format!("{} on {}", msg, show_snap(&base)));
+                continue;
+            }
+        };
+        let ops = match ops_of(&aln) {
+            Ok(o) => o,
+            Err(_) => continue,
+        };
+        // the matched node of every query symbol; None when the alignment is outside the documented domain
+        let nodes: Option<Vec<Option<usize>>> = (|| {
+            let mut v: Vec<Option<usize>> = vec![];
+            for (k, op) in ops.iter().enumerate() {
+                match (*op, k) {
+                    (AlignmentOperation::Match(None), 0) => v.push(match ops.get(1) {
+                        Some(AlignmentOperation::Match(Some((p, _)))) => Some(*p),
+                        _ => None,
+                    }),
+                    (AlignmentOperation::Match(Some((p, n))), k) if k >= 1 && v[k - 1] == Some(p) => v.push(Some(n)),
+                    _ => return None,
+                }
+            }
+            if v.len() != s.len() {
+                return None;
+            }
+            for (k, n) in v.iter().enumerate() {
+                if let Some(n) = n {
+                    if *n >= base.labels.len() || base.labels[*n] != s[k] {
+                        return None;
+                    }
+                }
+            }
+            Some(v)
+        })();
+        let nodes = match nodes {
+            Some(v) => v,
+            None => {
+                cc.count("edges_alignment_outside_documented_domain", 1);
+                continue;
+            }
+        };
+        let starts_at_0 = nodes[0].map_or(true, |n| n == 0);
+        let got = guard(|| poa.edges(aln.clone()));
+        let verdict: Result<(), (&str, String)> = match &got {
+            Err(msg) => Err(("panic", msg.clone())),
+            Ok(es) => {
+                if es.len() != s.len() - 1 {
+                    Err(("wrong-length", format!("{} edges for a path of {} nodes", es.len(), s.len())))
+                } else {
+                    let mut bad = None;
+                    for k in 1..nodes.len() {
+                        let (a, b) = (nodes[k - 1].unwrap(), nodes[k].unwrap());
+                        let e = es[k - 1];
+                        if e >= base.edges.len() || (base.edges[e].0, base.edges[e].1) != (a, b) {
+                            bad = Some(format!("step {}: matched nodes {} -> {} but edge index {} is {:?}", k, a, b, e, base.edges.get(e)));
+                            break;
+                        }
+                    }
+                    match bad {
+                        Some(d) => Err(("not-the-edge-between-matched-nodes", d)),
+                        None => Ok(()),
+                    }
+                }
+            }
+        };
+        cc.outcome(&got.as_ref().ok());
+        if starts_at_0 {
+            cc.nontrivial();
+            cc.count("edges_checked", 1);
+            if let Err((sym, d)) = verdict {
+                cc.violation(format!("C16/edges/{}", sym), format!("sequence {:?}, ops {:?}, edges() = {:?} on {}: {}", show(s), ops, got, show_snap(&base), d));
+            }
+        } else {
+            cc.count("edges_path_not_starting_at_node_0", 1);
+            if let Err((sym, d)) = verdict {
+                cc.count("edges_path_not_starting_at_node_0_answer_wrong", 1);
+                if EDGES_ASSERT_ANY_START {
+                    cc.violation(format!("C16/edges/start-not-node-0/{}", sym), format!("sequence {:?}, ops {:?}, edges() = {:?} on {}: {}", show(s), ops, got, show_snap(&base), d));
+                }
+            }
+        }
+    }
+}
+
+const POA_SHARDS: usize = 4;
+
+/// (references, sequences that may be added, maximal number of additions, next queries)
+fn poa_cfg(tier: Tier) -> (Vec<Vec<u8>>, Vec<Vec<u8>>, usize, Vec<Vec<u8>>) {
+    (gen::strings(b"ab", 1, tier.pick(3, 4)), gen::strings(b"ab", 1, tier.pick(2, 3)), 2, gen::strings(b"ab", 1, 3))
+}
+
+fn poa_unit(tier: Tier, shard: usize, ctx: &mut Ctx) {
+    let (refs, addable, depth, queries) = poa_cfg(tier);
+    // every sequence of 0..=depth additions
+    let mut histories: Vec<Vec<Vec<u8>>> = vec![vec![]];
+    let mut level: Vec<Vec<Vec<u8>>> = vec![vec![]];
+    for _ in 0..depth {
+        let mut next = vec![];
+        for h in &level {
+            for a in &addable {
+                let mut n = h.clone();
+                n.push(a.clone());
+                next.push(n);
+            }
+        }
+        histories.extend(next.iter().cloned());
+        level = next;
+    }
+    let mut idx = 0usize;
+    for r in &refs {
+        for adds in &histories {
+            idx += 1;
+            if idx % POA_SHARDS != shard {
+                continue;
+            }
+            if ctx.res.capped {
+                return;
+            }
+            let shown: Vec<String> = adds.iter().map(|a| show(a)).collect();
+            for si in 0..SCORINGS.len() {
+                ctx.case(|| json!({"kind": "poa-edges", "r": show(r), "adds": shown, "scoring": si}), |cc| check_edges(r, adds, si, cc));
+                for clips in [false, true] {
+                    for q in &queries {
+                        ctx.case(
+                            || json!({"kind": "poa-new", "r": show(r), "adds": shown, "scoring": si, "clips": clips, "q": show(q)}),
+                            |cc| check_poa_new(r, adds, si, clips, q, cc),
+                        );
+                    }
+                }
+            }
+        }
+    }
+}
+
 // ---------------------------------------------------------------- Prop
 
 fn unit_table() -> Vec<(String, u8, usize, usize)> {
@@ -775,6 +1129,13 @@ fn unit_table() -> Vec<(String, u8, usize, usize)> {
     for sh in 0..IDENTITY_SHARDS {
         v.push((format!("identity-{}", sh), 1u8, sh, 0));
     }
+    // appended (entry points / out-of-band paths)
+    for sh in 0..NARROW_SHARDS {
+        v.push((format!("banded-narrow-{}", sh), 4u8, sh, 0));
+    }
+    for sh in 0..POA_SHARDS {
+        v.push((format!("poa-new-edges-{}", sh), 5u8, sh, 0));
+    }
     v
 }
 
@@ -786,7 +1147,7 @@ impl Prop for C16Prop {
         "model_checking"
     }
     fn rule(&self) -> &'static str {
-        "K2: breadth-first search over histories of align-and-add operations (mode, query) on the real poa::Aligner, all references of a shard as initial states; states de-duplicated on (node labels, (source,target,weight) list in edge-index order) of the real graph; every transition is one case (distinct (state, op) pairs), checked for acyclicity, label/edge-weight monotonicity, node growth <= |q| and the consensus clause. K1: every (reference, query, scoring) triple of the linear-graph clause and every (reference, scoring) pair of the identity clause, enumerated once. Non-trivial: history transition — the addition increased the number of extra successors/predecessors/sources of the graph (it created a branch); linear — the lengths differ (and the longer is >= 2) or the Needleman-Wunsch optimum beats the ungapped alignment; identity — |r| >= 2 and the all-match alignment is the unique optimum."
+        "K2: breadth-first search over histories of align-and-add operations (mode, query) on the real poa::Aligner, all references of a shard as initial states; states de-duplicated on (node labels, (source,target,weight) list in edge-index order) of the real graph; every transition is one case (distinct (state, op) pairs), checked for acyclicity, label/edge-weight monotonicity, node growth <= |q| and the consensus clause. K1: every (reference, query, scoring) triple of the linear-graph clause and every (reference, scoring) pair of the identity clause, enumerated once. Non-trivial: history transition — the addition increased the number of extra successors/predecessors/sources of the graph (it created a branch); linear — the lengths differ (and the longer is >= 2) or the Needleman-Wunsch optimum beats the ungapped alignment; identity — |r| >= 2 and the all-match alignment is the unique optimum. Appended K1 families: narrow bands — every (reference, query, scoring) over the listed strings with EVERY bandwidth 0..max(|r|,|q|)-1 inside one case (non-trivial: the longer sequence has >= 2 symbols); Poa::new — every (reference, sequence of 0..2 global additions, scoring, clip setting, next query): the Poa built from the Aligner's graph must give the same custom / global / global_banded(1 and |q|+nodes) alignment and the same graph after adding the custom alignment (non-trivial: the graph has a branch); Poa::edges — every (reference, additions, scoring): each distinct sequence that was added is aligned again and, when the alignment is in the function's documented domain and starts at node 0, the returned edge indices must be the graph's edges between consecutive matched nodes."
     }
     fn assumptions(&self) -> Vec<&'static str> {
         vec![
@@ -800,6 +1161,9 @@ impl Prop for C16Prop {
             "consensus only required to be non-empty and the label sequence of some directed path (nothing about which path)",
             "alphabet {a,b,c}; the byte 'X' (treated as a wildcard by add_alignment) is not used",
             "scoring clip penalties left at their defaults except in the mixed family (-1 each, visible to custom/global_banded)",
+            "narrow bands (bandwidth below max(|r|,|q|)): the rustdoc only says 'if too small, alignment may be suboptimal'; demanded: no panic, score <= Needleman-Wunsch optimum, and whenever the reported score is above MIN_SCORE/2 (i.e. not the minus-infinity sentinel of cells outside the band) the operations are a valid alignment of the query to the reference whose recomputed score equals the reported one; nothing is demanded about WHICH bandwidths reach the optimum",
+            "Poa::new(scoring, graph) is an equivalent route to the Aligner that owns an equal graph: the DP is deterministic in (graph, scoring, query), so the whole Alignment (score and operations) must be equal, and `poa.graph` must be the graph that was passed in; Aligner::global == Poa::custom under a scoring whose four clip penalties are MIN_SCORE",
+            "Poa::edges is asserted only inside its documented domain ('alignments for sequences that have already been added, so all operations must be Match') narrowed to where it is unambiguous: all operations are Match, operation k>=1 names the node of operation k-1 as its predecessor, every matched node carries the aligned symbol, and the first matched node is node 0 (Match(None) does not record its node and edges() starts from node 0). Alignments whose first matched node is another source node are counted in the evidence (extra counters) and reported, not judged",
         ]
     }
     fn bounds(&self, tier: Tier) -> Value {
@@ -814,6 +1178,9 @@ impl Prop for C16Prop {
                          "times": tier.pick(3, 5), "scorings": "all 8"},
             "history_global": {"refs": tier.pick("{a,b}^1..4", "{a,b}^1..5"), "queries": format!("{} strings {{a,b}}^1..3", g.queries.len()),
                                "depth": g.depth, "scorings": "all 8", "ops": "global(q).add_to_graph()"},
+            "banded_narrow": {"strings": format!("{{a,b}}^1..{}; all ordered pairs (r,q); all 8 scorings", tier.pick(6, 7)), "bandwidths": "every value 0..max(|r|,|q|)-1"},
+            "poa_new_edges": {"refs": tier.pick("{a,b}^1..3", "{a,b}^1..4"), "additions": format!("every sequence of 0..=2 global additions over {{a,b}}^1..{}", tier.pick(2, 3)),
+                              "next_queries": "{a,b}^1..3", "scorings": "all 8", "clips": "none / -1 each", "banded_bandwidths": "1 and |q|+nodes"},
             "history_mixed": {"refs": tier.pick("{a,b}^1..3", "{a,b}^1..4"), "queries": format!("{} strings {{a,b}}^1..3", m.queries.len()),
                               "depth": m.depth, "scorings": MIXED_SCORINGS.to_vec(),
                               "ops": "{global,semiglobal,local,custom,global_banded(|q|+nodes)}(q).add_to_graph(); clip penalties -1"}
@@ -832,7 +1199,10 @@ impl Prop for C16Prop {
             0 => linear_unit(tier, a, ctx),
             1 => identity_unit(tier, a, ctx),
             2 => history_unit("global", a, b, GLOBAL_REF_SHARDS, tier, ctx),
-            _ => history_unit("mixed", a, b, MIXED_REF_SHARDS, tier, ctx),
+            3 => history_unit("mixed", a, b, MIXED_REF_SHARDS, tier, ctx),
+            4 => narrow_unit(tier, a, ctx),
+            5 => poa_unit(tier, a, ctx),
+            _ => {}
         }
     }
     fn replay(&self, case: &Value, ctx: &mut Ctx) {
@@ -846,6 +1216,27 @@ impl Prop for C16Prop {
                     None => bw_extras(Tier::Thorough).to_vec(),
                 };
                 ctx.case(|| case.clone(), |cc| check_linear(&r, &q, si, &extra, cc));
+            }
+            "poa-new" | "poa-edges" => {
+                let r = unshow(case["r"].as_str().unwrap_or("a"));
+                let adds: Vec<Vec<u8>> = case["adds"].as_array().map(|a| a.iter().filter_map(|x| x.as_str()).map(unshow).collect()).unwrap_or_default();
+                let si = (case["scoring"].as_u64().unwrap_or(0) as usize).min(SCORINGS.len() - 1);
+                if r.is_empty() || adds.iter().any(|a| a.is_empty()) {
+                    return ctx.case(|| case.clone(), |cc| cc.violation("C16/replay/malformed-case", "empty sequence"));
+                }
+                if case["kind"] == "poa-edges" {
+                    ctx.case(|| case.clone(), |cc| check_edges(&r, &adds, si, cc));
+                } else {
+                    let q = unshow(case["q"].as_str().unwrap_or("a"));
+                    let clips = case["clips"].as_bool().unwrap_or(false);
+                    ctx.case(|| case.clone(), |cc| check_poa_new(&r, &adds, si, clips, &q, cc));
+                }
+            }
+            "narrow-band" => {
+                let r = unshow(case["r"].as_str().unwrap_or("a"));
+                let q = unshow(case["q"].as_str().unwrap_or("a"));
+                let si = (case["scoring"].as_u64().unwrap_or(0) as usize).min(SCORINGS.len() - 1);
+                ctx.case(|| case.clone(), |cc| check_narrow(&r, &q, si, cc));
             }
             "identity" => {
                 let r = unshow(case["r"].as_str().unwrap_or(""));
